@@ -19,7 +19,8 @@ use std::collections::{BTreeMap, HashSet};
 use std::path::Path;
 
 pub const HEADER: &str = "From Coq Require Import List NArith ZArith String.\nFrom V Require Import Base.Util Model.Registry Model.RngWords Model.ExampleValue Corr.RunC12.\nImport ListNotations. Open Scope string_scope.";
-pub const EVALS: [(&str, &str); 19] = [
+pub const EVALS: [(&str, &str); 20] = [
+    ("hyp_safe_compared", "hyp_safe_compared"),
     ("hyp_in_class", "hyp_in_class"),
     ("hyp_u256_rt_fails", "hyp_u256_rt_fails"),
     ("hyp_other_rt_fails_outside_class", "hyp_other_rt_fails_outside_class"),
@@ -303,6 +304,33 @@ impl<'a> Sim<'a> {
     }
 }
 
+/// size of the tree unfolding from `id` along fields of all variants / elements / compact inner,
+/// cut at ids already on the path, capped
+fn unfold_size(reg: &PortableRegistry, id: u32, path: &mut Vec<u32>, budget: &mut isize) {
+    *budget -= 1;
+    if *budget <= 0 || path.contains(&id) {
+        return;
+    }
+    let Some(ty) = reg.resolve(id) else { return };
+    let kids: Vec<u32> = match &ty.type_def {
+        TypeDef::Composite(c) => c.fields.iter().map(|f| f.ty.id).collect(),
+        TypeDef::Variant(v) => v.variants.iter().flat_map(|v| v.fields.iter().map(|f| f.ty.id)).collect(),
+        TypeDef::Sequence(s) => vec![s.type_param.id],
+        TypeDef::Array(a) => vec![a.type_param.id],
+        TypeDef::Tuple(t) => t.fields.iter().map(|f| f.id).collect(),
+        TypeDef::Compact(c) => vec![c.type_param.id],
+        _ => vec![],
+    };
+    path.push(id);
+    for k in kids {
+        unfold_size(reg, k, path, budget);
+        if *budget <= 0 {
+            break;
+        }
+    }
+    path.pop();
+}
+
 /// number of words the run on (id, seed) consumes; None = too large a traversal (case skipped)
 fn words_needed(reg: &PortableRegistry, id: u32, seed: u64) -> Option<usize> {
     let mut k = 256usize;
@@ -565,6 +593,11 @@ impl<'a> Gen<'a> {
         let reg = reggen::to_registry(rj);
         let rcoq = regprint::registry(&reg);
         for ch in ids.chunks(chunk.max(1)) {
+            let mut budget: isize = 3000;
+            for &id in ch {
+                unfold_size(&reg, id, &mut vec![], &mut budget);
+            }
+            let small = budget > 0;
             let mut runs_coq = vec![];
             let mut runs_json = vec![];
             for &seed in seeds {
@@ -622,7 +655,7 @@ impl<'a> Gen<'a> {
             if runs_coq.is_empty() {
                 continue;
             }
-            let term = format!("(CReg {} {})", rcoq, clist(runs_coq));
+            let term = format!("(CReg {} {} {})", rcoq, cbool(small), clist(runs_coq));
             let mut j = json!({"stream": stream, "name": name, "ids": ch, "seeds": seeds, "runs": runs_json});
             if print_registry_json {
                 j["registry"] = rj.clone();
@@ -719,9 +752,9 @@ pub fn generate(tier: &str, seed: u64, out: &Path, nshards: usize, replay: Optio
                 }
             }
         }
-        let scale = if thorough { 6 } else { 1 };
+        let scale = if thorough { 8 } else { 1 };
         // 1. the sampling code of rand against the word stream
-        for _ in 0..(24 * scale) {
+        for _ in 0..(48 * scale) {
             let s = rng.next_u64() >> rng.below(64);
             g.push_probe(&mut rng, s, 40);
         }
@@ -739,7 +772,7 @@ pub fn generate(tier: &str, seed: u64, out: &Path, nshards: usize, replay: Optio
             g.push_registry("faults", name, &rj, &ids, &sd, 8, true);
         }
         // 4. registries of random programs
-        for k in 0..(30 * scale) {
+        for k in 0..(90 * scale) {
             let cfg = GenCfg { max_defs: if thorough { 8 } else { 6 }, docs: false, ..Default::default() };
             let p = reggen::rand_program(&mut rng, &cfg);
             let (rj, _roots) = reggen::build(&p);
@@ -749,7 +782,7 @@ pub fn generate(tier: &str, seed: u64, out: &Path, nshards: usize, replay: Optio
             g.push_registry("program", &format!("program{k}"), &rj, &ids, &sd, 12, true);
         }
         // 5. random type graphs
-        for k in 0..(60 * scale) {
+        for k in 0..(160 * scale) {
             let rj = soup(&mut rng);
             let n = rj["types"].as_array().unwrap().len() as u32;
             let ids: Vec<u32> = (0..n).collect();
@@ -760,8 +793,8 @@ pub fn generate(tier: &str, seed: u64, out: &Path, nshards: usize, replay: Optio
         let mut pj = serde_json::to_value(polkadot_registry()).unwrap();
         strip_docs(&mut pj);
         let n = pj["types"].as_array().unwrap().len() as u32;
-        let ids: Vec<u32> = if thorough { (0..n).collect() } else { (0..32).map(|_| rng.below(n as usize) as u32).collect() };
-        let sd = seeds(&mut rng, 2);
+        let ids: Vec<u32> = if thorough { (0..n).collect() } else { (0..128).map(|_| rng.below(n as usize) as u32).collect() };
+        let sd = seeds(&mut rng, if thorough { 4 } else { 2 });
         g.push_registry("polkadot", "polkadot", &pj, &ids, &sd, if thorough { 58 } else { 8 }, false);
     }
 
